@@ -84,6 +84,7 @@ type RunResult struct {
 	Seed       uint64         `json:"seed"`
 	Run        uint64         `json:"run"`
 	Violations []Violation    `json:"violations,omitempty"`
+	KnownHits  []Violation    `json:"known_hits,omitempty"`
 	Harness    string         `json:"harness_error,omitempty"`
 	Decisions  []int          `json:"decisions,omitempty"`
 	NDecisions int            `json:"n_decisions"`
@@ -141,6 +142,7 @@ func RunOne(t *testing.T, sc *Scenario, tape *Tape, keepText bool) (res RunResul
 		return
 	}
 	res.Violations = s.Violations()
+	res.KnownHits = s.KnownHits()
 	res.NDecisions = len(tape.Rec)
 	res.Decisions = tape.Values()
 	res.DecHash = hashInts(res.Decisions)
